@@ -504,9 +504,22 @@ pub fn run(args: &Args) {
     let mut cap = false;
     let mut pending_first: Option<(usize, String, String, Value)> = None;
     let mut pending_count = 0u64;
-    let plan: Vec<(&Space, usize, bool)> = if quick { vec![(&space, 4, false), (&narrow, 6, false), (&narrow, 4, true)] } else { vec![(&space, 6, false), (&narrow, 8, false), (&narrow, 6, true)] };
-    for (sp, depth, with_file) in plan {
-        for base in BASES {
+    let all_bases: &[Base] = &BASES;
+    let plan: Vec<(&Space, usize, bool, &[Base])> = if quick {
+        vec![(&space, 4, false, all_bases), (&narrow, 6, false, all_bases), (&narrow, 4, true, all_bases)]
+    } else {
+        vec![
+            (&narrow, 7, false, all_bases),
+            (&space, 5, false, all_bases),
+            (&narrow, 5, true, all_bases),
+            (&space, 6, false, &[Base::Fresh]),
+            (&narrow, 8, false, &[Base::Fresh]),
+            (&space, 6, false, &[Base::Mid]),
+            (&narrow, 8, false, &[Base::Mid]),
+        ]
+    };
+    for (sp, depth, with_file, bases) in plan {
+        for &base in bases {
             let cfg = Cfg { sp, base, full: &full, stats: &stats, scratch: scratch.path(), with_file };
             let pend: std::sync::Mutex<Vec<(Vec<Op>, String)>> = std::sync::Mutex::new(Vec::new());
             let exec_f = |h: &[Op]| match exec(&cfg, h) {
